@@ -51,6 +51,97 @@ ENUM_MAP = {  # carquet enum -> (spec enum, prefix)
 PAGE_ALIAS = {"DATA": "DATA_PAGE", "INDEX": "INDEX_PAGE", "DICTIONARY": "DICTIONARY_PAGE", "DATA_V2": "DATA_PAGE_V2"}
 
 
+def finaliser_verdicts(P):
+    """({clause: None | first failing configuration}, configurations) for carquet_page_writer_finalize, from the
+    semantic trace of rules/pagefin.py (raises sem.Inconclusive when a configuration cannot be executed)."""
+    fin = P.fn("carquet_page_writer_finalize", PW)
+    from ..rules import pagefin
+    S = pagefin.SIZES
+    page_data_tag = P.enum("carquet_page_type").get("CARQUET_PAGE_DATA")
+    verdicts = {k: None for k in ("page-type-tag", "page-layout", "header-uncompressed", "header-compressed",
+                                  "header-fields", "header-counts", "header-crc", "page-bytes")}
+    nconf = 0
+
+    def fail(k, msg):
+        if verdicts[k] is None:
+            verdicts[k] = msg
+    for crc in (False, True):
+        for stats, minmax in ((False, False), (True, False), (True, True), (False, True)):
+            for rep, deff in ((True, True), (False, True), (False, False)):
+                for codec in (0, P.enum("carquet_compression")["CARQUET_COMPRESSION_SNAPPY"]):
+                    T = pagefin.trace(P, crc=crc, stats=stats, minmax=minmax, rep=rep, deff=deff, codec=codec)
+                    nconf += 1
+                    cfg_ = "crc=%d stats=%d minmax=%d rep=%d def=%d codec=%d" % (crc, stats, minmax, rep, deff, codec)
+                    if T.ret != 0:
+                        fail("page-bytes", "%s: returns %s" % (cfg_, T.ret))
+                        continue
+                    want = [(t_, S[t_]) for t_, on in (("rep", rep), ("def", deff), ("val", True)) if on]
+                    total = sum(n_ for _, n_ in want)
+                    body = [e for e in T.events if e[0] == "append" and isinstance(e[2], tuple) and e[2][0] in S]
+                    if [(e[2][0], e[3]) for e in body] != want or len(set(e[1] for e in body)) != 1:
+                        fail("page-layout", "%s: body appends %s" % (cfg_, [(e[1], e[2][0], e[3]) for e in body]))
+                        continue
+                    ubuf = body[0][1]
+                    udata = ("data@%s+%s" % ubuf, 0)
+                    csize = pagefin.COMPRESSED if codec else total
+                    if T.outs["usize"] != total:
+                        fail("header-uncompressed", "%s: *uncompressed_size = %s, body holds %d bytes" % (cfg_, T.outs["usize"], total))
+                    f2, f3 = T.field(1, 2), T.field(1, 3)
+                    if not f2 or f2[1] != ("thrift_write_i32", total) or not f3 or f3[1] != ("thrift_write_i32", csize):
+                        fail("header-fields", "%s: fields 2/3 carry %s / %s, expected %d / %d" % (cfg_, f2, f3, total, csize))
+                    if T.outs["csize"] != csize:
+                        fail("header-compressed", "%s: *compressed_size = %s, codec produced %d" % (cfg_, T.outs["csize"], csize))
+                    if codec:
+                        cd_ = [e for e in T.events if e[0] == "codec"]
+                        if cd_ != [("codec", udata, total)]:
+                            fail("page-bytes", "%s: codec input %s, expected the %d body bytes" % (cfg_, cd_, total))
+                        cap = [e for e in T.events if e[0] == "append" and e[2] == ("scratch", 0)]
+                    else:
+                        cap = [e for e in T.events if e[0] == "append" and e[2] == udata]
+                    if len(cap) != 1 or cap[0][3] != csize:
+                        fail("page-bytes", "%s: the codec result is appended %s" % (cfg_, cap))
+                        continue
+                    cdata = ("data@%s+%s" % cap[0][1], 0)
+                    last = T.events[max(i for i, e in enumerate(T.events) if e[0] == "append")]
+                    thr = [i for i, e in enumerate(T.events) if e[0].startswith("thrift_write")]
+                    if last[1] != T.outs["page_buffer"] or last[2] != cdata or last[3] != csize or \
+                            T.events.index(last) < max(thr, default=0) or \
+                            ("enc-init", T.outs["page_buffer"]) not in T.events or \
+                            ("clear", T.outs["page_buffer"]) not in T.events or \
+                            T.events.index(("clear", T.outs["page_buffer"])) > T.events.index(("enc-init", T.outs["page_buffer"])):
+                        fail("page-bytes", "%s: the page buffer is not cleared, given the header, then the %d payload bytes: %s"
+                             % (cfg_, csize, [e for e in T.events if not e[0].startswith("thrift_write")]))
+                    f4 = T.field(1, 4)
+                    if crc:
+                        # the ranges folded into the value field 4 carries, each spelled as the sources it holds:
+                        # the stored payload (= the body sections in order when no codec ran) or a section buffer
+                        chain = pagefin.crc_chain(T, f4[1][1]) if f4 else None
+                        stored = want if not codec else [("compressed", csize)]
+                        got = []
+                        for b_, n_ in (chain or []):
+                            if b_ in (cdata, udata) and not codec and n_ == total:
+                                got += want
+                            elif b_ == cdata and codec and n_ == csize:
+                                got.append(("compressed", csize))
+                            elif isinstance(b_, tuple) and b_[0] in S and b_[1] == 0:
+                                got.append((b_[0], n_))
+                            else:
+                                got.append(("?%s" % (b_,), n_))
+                        if chain is None:
+                            fail("header-crc", "%s: field 4 is %s, not a value the CRC routines returned" % (cfg_, f4))
+                        elif got != stored:
+                            fail("header-crc", "%s: field 4 is the CRC of %s, the stored payload is %s" % (cfg_, got, stored))
+                    if not crc and f4 is not None:
+                        fail("header-crc", "%s: field 4 written with CRC disabled" % cfg_)
+                    f1, f5 = T.field(1, 1), T.field(1, 5)
+                    if not f1 or f1[1] != ("thrift_write_i32", page_data_tag) or not f5 or f5[1] != ("struct",):
+                        fail("page-type-tag", "%s: type field %s, data_page_header %s" % (cfg_, f1, f5))
+                    n1, n2 = T.field(2, 1), T.field(2, 2)
+                    if not n1 or n1[1][1:] != (321,) or not n2 or n2[1][1:] != (8,):
+                        fail("header-counts", "%s: num_values %s encoding %s" % (cfg_, n1, n2))
+    return verdicts, nconf
+
+
 def _run(ctx):
     P = ctx.P
     ctx.clause("C05.1 written field ids / wire types equal parquet.thrift (metadata + hand-rolled page header)")
@@ -126,74 +217,9 @@ def _run(ctx):
     # ---- (3) what the finaliser does, configuration by configuration (semantic trace: buffers, the
     # Thrift encoder, the CRC and the codec are hooked; helpers, gotos and hoisted locals do not matter)
     from ..rules import pagefin
-    S = pagefin.SIZES
-    page_data_tag = P.enum("carquet_page_type").get("CARQUET_PAGE_DATA")
-    verdicts = {k: None for k in ("page-type-tag", "page-layout", "header-uncompressed", "header-compressed",
-                                  "header-fields", "header-counts", "header-crc", "page-bytes")}
-    nconf = 0
-
-    def fail(k, msg):
-        if verdicts[k] is None:
-            verdicts[k] = msg
+    verdicts, nconf = {}, 0
     try:
-        for crc in (False, True):
-            for stats, minmax in ((False, False), (True, False), (True, True), (False, True)):
-                for rep, deff in ((True, True), (False, True), (False, False)):
-                    for codec in (0, P.enum("carquet_compression")["CARQUET_COMPRESSION_SNAPPY"]):
-                        T = pagefin.trace(P, crc=crc, stats=stats, minmax=minmax, rep=rep, deff=deff, codec=codec)
-                        nconf += 1
-                        cfg_ = "crc=%d stats=%d minmax=%d rep=%d def=%d codec=%d" % (crc, stats, minmax, rep, deff, codec)
-                        if T.ret != 0:
-                            fail("page-bytes", "%s: returns %s" % (cfg_, T.ret))
-                            continue
-                        want = [(t_, S[t_]) for t_, on in (("rep", rep), ("def", deff), ("val", True)) if on]
-                        total = sum(n_ for _, n_ in want)
-                        body = [e for e in T.events if e[0] == "append" and isinstance(e[2], tuple) and e[2][0] in S]
-                        if [(e[2][0], e[3]) for e in body] != want or len(set(e[1] for e in body)) != 1:
-                            fail("page-layout", "%s: body appends %s" % (cfg_, [(e[1], e[2][0], e[3]) for e in body]))
-                            continue
-                        ubuf = body[0][1]
-                        udata = ("data@%s+%s" % ubuf, 0)
-                        csize = pagefin.COMPRESSED if codec else total
-                        if T.outs["usize"] != total:
-                            fail("header-uncompressed", "%s: *uncompressed_size = %s, body holds %d bytes" % (cfg_, T.outs["usize"], total))
-                        f2, f3 = T.field(1, 2), T.field(1, 3)
-                        if not f2 or f2[1] != ("thrift_write_i32", total) or not f3 or f3[1] != ("thrift_write_i32", csize):
-                            fail("header-fields", "%s: fields 2/3 carry %s / %s, expected %d / %d" % (cfg_, f2, f3, total, csize))
-                        if T.outs["csize"] != csize:
-                            fail("header-compressed", "%s: *compressed_size = %s, codec produced %d" % (cfg_, T.outs["csize"], csize))
-                        if codec:
-                            cd_ = [e for e in T.events if e[0] == "codec"]
-                            if cd_ != [("codec", udata, total)]:
-                                fail("page-bytes", "%s: codec input %s, expected the %d body bytes" % (cfg_, cd_, total))
-                            cap = [e for e in T.events if e[0] == "append" and e[2] == ("scratch", 0)]
-                        else:
-                            cap = [e for e in T.events if e[0] == "append" and e[2] == udata]
-                        if len(cap) != 1 or cap[0][3] != csize:
-                            fail("page-bytes", "%s: the codec result is appended %s" % (cfg_, cap))
-                            continue
-                        cdata = ("data@%s+%s" % cap[0][1], 0)
-                        last = T.events[max(i for i, e in enumerate(T.events) if e[0] == "append")]
-                        thr = [i for i, e in enumerate(T.events) if e[0].startswith("thrift_write")]
-                        if last[1] != T.outs["page_buffer"] or last[2] != cdata or last[3] != csize or \
-                                T.events.index(last) < max(thr, default=0) or \
-                                ("enc-init", T.outs["page_buffer"]) not in T.events or \
-                                ("clear", T.outs["page_buffer"]) not in T.events or \
-                                T.events.index(("clear", T.outs["page_buffer"])) > T.events.index(("enc-init", T.outs["page_buffer"])):
-                            fail("page-bytes", "%s: the page buffer is not cleared, given the header, then the %d payload bytes: %s"
-                                 % (cfg_, csize, [e for e in T.events if not e[0].startswith("thrift_write")]))
-                        f4 = T.field(1, 4)
-                        crcs = [e for e in T.events if e[0] == "crc"]
-                        if crc and (crcs != [("crc", cdata, csize)] or not f4 or f4[1][1] != pagefin.CRCV):
-                            fail("header-crc", "%s: crc over %s, field 4 %s" % (cfg_, crcs, f4))
-                        if not crc and f4 is not None:
-                            fail("header-crc", "%s: field 4 written with CRC disabled" % cfg_)
-                        f1, f5 = T.field(1, 1), T.field(1, 5)
-                        if not f1 or f1[1] != ("thrift_write_i32", page_data_tag) or not f5 or f5[1] != ("struct",):
-                            fail("page-type-tag", "%s: type field %s, data_page_header %s" % (cfg_, f1, f5))
-                        n1, n2 = T.field(2, 1), T.field(2, 2)
-                        if not n1 or n1[1][1:] != (321,) or not n2 or n2[1][1:] != (8,):
-                            fail("header-counts", "%s: num_values %s encoding %s" % (cfg_, n1, n2))
+        verdicts, nconf = finaliser_verdicts(P)
         what = {"page-type-tag": "the page header's type is written as DATA_PAGE together with field 5 (data_page_header)",
                 "page-layout": "the page body is repetition levels, definition levels, values in that order, each only when present",
                 "header-uncompressed": "*uncompressed_size is the number of body bytes handed to the codec",
